@@ -4,6 +4,9 @@ a  integrated system is x'=f(x), Phi'=Df(x)Phi, Phi(0)=I, with the 36+6 layout u
 b  Df^T W + W Df = 0 for the canonical two-form W of the rotating frame (=> Phi^T W Phi = W)
 c  time reversal is a full negation of the right-hand side at every site where forward may be -1
 d  monodromy / stability services are wired to the variational system of the same orbit
+
+c-memo  the cached compiled wrapper of a directed system is keyed by base rhs, direction and flip indices (hv.memo)
+d-invalidation  cached monodromy/stability entries and recorded slots are dropped when the period changes (C20.e on the orbit service)
 """
 from __future__ import annotations
 
